@@ -559,7 +559,11 @@ pub proof fn lemma_numeric_no_nl(b: Seq<u8>, k: int)
             ret.0->Err_0.line@ == b.subrange(0, line_end(b)) && ret.1@ == b.subrange(line_end(b), b.len() as int) }),
         /*@L:rest_is_a_suffix:C06*/ exists|k: int| 0 <= k <= bytes@.len() && ret.1@ == #[trigger] bytes@.subrange(k, bytes@.len() as int),""")
     f.body_start("let ghost b_in = bytes@;\n    proof { lemma_skip_nl_suffix(b_in); }\n")
-    f.after_stmt("let bytes = consume_leading_newlines(bytes)", "    let ghost b1 = bytes@;\n")
+    # snapshot of the input after the leading terminators were skipped (if the function does that first, as the pinned code does)
+    if re.search(r"let bytes = consume_leading_newlines\(bytes\)", f.orig):
+        f.after_stmt("let bytes = consume_leading_newlines(bytes)", "    let ghost b1 = bytes@;\n")
+    else:
+        f.body_start("let ghost b1 = bytes@;\n")
     f.insert_before("match result {", """proof {
         let k0 = choose|k: int| 0 <= k <= b_in.len() && #[trigger] b_in.subrange(k, b_in.len() as int) == skip_nl(b_in);
         if result is Ok {
